@@ -52,6 +52,9 @@ pub struct LogInner {
     pub snr: i8,
     /// Next value of the scripted counter RNG (shared so the harness can set it any time).
     pub rng_next: u32,
+    /// scripted stream: this many further draws repeat the current value before it starts to count up
+    /// (a stubborn stretch; the stream still visits every value afterwards)
+    pub rng_hold: u32,
     /// Board lead time declared through `Timings` (ms).
     pub lead_ms: u32,
     /// nb front-end only: the radio answers a TxRequest with `Txing` and reports completion
@@ -105,7 +108,11 @@ impl RngCore for SRng {
             None => {
                 let mut l = self.log.borrow_mut();
                 let v = l.rng_next;
-                l.rng_next = v.wrapping_add(1);
+                if l.rng_hold > 0 {
+                    l.rng_hold -= 1;
+                } else {
+                    l.rng_next = v.wrapping_add(1);
+                }
                 v
             }
         }
@@ -546,6 +553,9 @@ impl<const PW: u8, const G: i8> Dev<PW, G> {
         })
     }
 
+    pub fn set_rng_hold(&mut self, n: u32) {
+        self.log.borrow_mut().rng_hold = n;
+    }
     pub fn set_rng_next(&mut self, v: u32) {
         self.log.borrow_mut().rng_next = v;
     }
